@@ -145,7 +145,7 @@ def g_kcase(k):
     ops = [o for o in k["ops"] if o["op"] != "jobpath"]
     ans = [a for o, a in zip(k["ops"], k["answers"]) if o["op"] != "jobpath"]
     return (f"{{| k_classes := {identgen.g_classes(b['classes'])}; k_heap := {identgen.g_heap(b['nodes'])}; "
-            f"k_flags := {glist(gbool(x['sealed']) for x in b['nodes'])}; k_ops := {glist(g_sop(o) for o in ops)}; "
+            f"k_cache := {identgen.g_cache(b['nodes'])}; k_ops := {glist(g_sop(o) for o in ops)}; "
             f"k_expect := {glist(g_sexpect(a) for a in ans)}; k_final := {identgen.g_heap(k['after']['nodes'])} |}}")
 
 
@@ -160,7 +160,7 @@ def oracle(c, case, r):
             # recognisable special case: x was sealed first (seal action), then submitted with init tasks:
             # submit() assigns init_tasks on the already sealed x and the Sealer stops at sealed nodes
             presealed = [a["n"] for k, a in enumerate(acts) if a["a"] == "submit" and a.get("init")
-                         and any(b["a"] == "seal" and b["n"] == a["n"] for b in acts[:k])]
+                         and any(b["a"] == "seal" for b in acts[:k])]
             via_init = any(i in reachable(before, [j]) for x in presealed if x < len(before) for j in before[x]["init"])
             others = reachable_without_init(before, sealed, presealed)
             key = "C14:reachable-not-sealed"
@@ -171,7 +171,7 @@ def oracle(c, case, r):
     # the consequences of the known finding above (attempts accepted on such an init task) are not
     # reported a second time under other keys
     presealed = [a["n"] for k, a in enumerate(acts) if a["a"] == "submit" and a.get("init")
-                 and any(b["a"] == "seal" and b["n"] == a["n"] for b in acts[:k])]
+                 and any(b["a"] == "seal" for b in acts[:k])]
     if presealed:
         frozen = reachable_without_init(before, [i for i in sealed], presealed) & {i for i in frozen if before[i]["sealed"]} \
             if any(not before[i]["sealed"] for i in frozen) else frozen
@@ -188,7 +188,8 @@ def oracle(c, case, r):
         if i < n and first.get(i) != last.get(i):
             c.violation("C14:identifier-changed", "the identifier of a frozen configuration changed",
                         dict(desc=case["desc"], ops=case["ops"], node=i, before=first.get(i), after=last.get(i)))
-        if i < len(after) and before[i] != after[i]:
+        strip = lambda x: {k: v for k, v in x.items() if k not in ("craw", "cfull")}   # identifier caches may fill up
+        if i < len(after) and strip(before[i]) != strip(after[i]):
             c.violation("C14:frozen-node-changed", "the stored state of a frozen configuration changed",
                         dict(desc=case["desc"], ops=case["ops"], node=i, before=before[i], after=after[i]))
     paths = {}
